@@ -14,6 +14,22 @@ type Access struct {
 	Kind  string    // "read", "write", "mapread", "mapwrite", "mapdelete", "addr" (address escapes), "call" (method call / invoke on the loaded value), "range"
 	Base  ssa.Value // the struct pointer/value the field was selected from
 	FA    ssa.Value // the FieldAddr / Field value
+	// an access made by a repository function that the field (its address, or the map it holds) was handed to:
+	// Via is the call in the function that selected the field, Site the call of Fn itself (they coincide unless the
+	// value was handed on once more)
+	Via  ssa.CallInstruction
+	Site ssa.CallInstruction
+}
+
+// viaCall marks accesses found in a callee with the call that leads to them.
+func viaCall(sub []Access, call ssa.CallInstruction) []Access {
+	for i := range sub {
+		if sub[i].Site == nil {
+			sub[i].Site = call
+		}
+		sub[i].Via = call
+	}
+	return sub
 }
 
 func isFieldOf(t types.Type, named *types.Named, field string, idx int) bool {
@@ -51,7 +67,13 @@ func (w *World) FieldAccesses(named *types.Named, field string) []Access {
 	return out
 }
 
-func (w *World) classifyAddrUses(fn *ssa.Function, fa *ssa.FieldAddr, base ssa.Value) []Access {
+func (w *World) classifyAddrUses(fn *ssa.Function, fa ssa.Value, base ssa.Value) []Access {
+	return w.classifyAddrUsesD(fn, fa, base, 0)
+}
+
+// classifyAddrUsesD: fa is the field's address - the FieldAddr itself or, in a repository function the address was
+// handed to (a method of the field's own type, a helper taking a pointer to it), the parameter that receives it.
+func (w *World) classifyAddrUsesD(fn *ssa.Function, fa ssa.Value, base ssa.Value, depth int) []Access {
 	var out []Access
 	refs := fa.Referrers()
 	if refs == nil {
@@ -61,15 +83,15 @@ func (w *World) classifyAddrUses(fn *ssa.Function, fa *ssa.FieldAddr, base ssa.V
 		switch u := r.(type) {
 		case *ssa.Store:
 			if u.Addr == ssa.Value(fa) {
-				out = append(out, Access{fn, u, "write", base, fa})
+				out = append(out, Access{Fn: fn, Instr: u, Kind: "write", Base: base, FA: fa})
 			} else {
-				out = append(out, Access{fn, u, "addr", base, fa})
+				out = append(out, Access{Fn: fn, Instr: u, Kind: "addr", Base: base, FA: fa})
 			}
 		case *ssa.UnOp:
 			if u.Op == token.MUL {
 				sub := w.classifyValueUses(fn, u, u, base, fa)
 				if len(sub) == 0 {
-					out = append(out, Access{fn, u, "read", base, fa})
+					out = append(out, Access{Fn: fn, Instr: u, Kind: "read", Base: base, FA: fa})
 				}
 				out = append(out, sub...)
 			}
@@ -81,26 +103,39 @@ func (w *World) classifyAddrUses(fn *ssa.Function, fa *ssa.FieldAddr, base ssa.V
 					switch eu := e.(type) {
 					case *ssa.Store:
 						if eu.Addr == ssa.Value(u) {
-							out = append(out, Access{fn, eu, "write", base, fa})
+							out = append(out, Access{Fn: fn, Instr: eu, Kind: "write", Base: base, FA: fa})
 						} else {
-							out = append(out, Access{fn, eu, "addr", base, fa})
+							out = append(out, Access{Fn: fn, Instr: eu, Kind: "addr", Base: base, FA: fa})
 						}
 					case *ssa.UnOp:
-						out = append(out, Access{fn, eu, "read", base, fa})
+						out = append(out, Access{Fn: fn, Instr: eu, Kind: "read", Base: base, FA: fa})
 					default:
-						out = append(out, Access{fn, e, "addr", base, fa})
+						out = append(out, Access{Fn: fn, Instr: e, Kind: "addr", Base: base, FA: fa})
 					}
 				}
 			}
 		case *ssa.FieldAddr:
 			// nested struct field: treat as read of the outer field (callers refine if needed)
-			out = append(out, Access{fn, u, "read", base, fa})
+			out = append(out, Access{Fn: fn, Instr: u, Kind: "read", Base: base, FA: fa})
 		default:
 			// passed to a call, captured, etc.
 			if call, ok := r.(ssa.CallInstruction); ok {
-				out = append(out, Access{fn, call, "addrcall", base, fa})
+				// a repository function that receives the address: its uses of the parameter are uses of the field
+				if g := call.Common().StaticCallee(); g != nil && depth < 2 && w.InRepo(g) && len(g.Blocks) > 0 && !call.Common().IsInvoke() {
+					followed := false
+					for i, a := range call.Common().Args {
+						if a == fa && i < len(g.Params) {
+							out = append(out, viaCall(w.classifyAddrUsesD(g, g.Params[i], base, depth+1), call)...)
+							followed = true
+						}
+					}
+					if followed {
+						continue
+					}
+				}
+				out = append(out, Access{Fn: fn, Instr: call, Kind: "addrcall", Base: base, FA: fa})
 			} else {
-				out = append(out, Access{fn, r, "addr", base, fa})
+				out = append(out, Access{Fn: fn, Instr: r, Kind: "addr", Base: base, FA: fa})
 			}
 		}
 	}
@@ -109,6 +144,12 @@ func (w *World) classifyAddrUses(fn *ssa.Function, fa *ssa.FieldAddr, base ssa.V
 
 // classifyValueUses looks at what is done with the loaded field value: map operations and calls.
 func (w *World) classifyValueUses(fn *ssa.Function, loaded ssa.Value, loadInstr ssa.Instruction, base ssa.Value, fa ssa.Value) []Access {
+	return w.classifyValueUsesD(fn, loaded, loadInstr, base, fa, 0)
+}
+
+// classifyValueUsesD: loaded is the field's value - the load itself or, in a repository function the value was
+// handed to (a method of the field's own named type, a helper over the map), the parameter that receives it.
+func (w *World) classifyValueUsesD(fn *ssa.Function, loaded ssa.Value, loadInstr ssa.Instruction, base ssa.Value, fa ssa.Value, depth int) []Access {
 	var out []Access
 	refs := loaded.Referrers()
 	if refs == nil {
@@ -119,24 +160,41 @@ func (w *World) classifyValueUses(fn *ssa.Function, loaded ssa.Value, loadInstr 
 		switch u := r.(type) {
 		case *ssa.MapUpdate:
 			if u.Map == loaded {
-				out = append(out, Access{fn, u, "mapwrite", base, fa})
+				out = append(out, Access{Fn: fn, Instr: u, Kind: "mapwrite", Base: base, FA: fa})
 				any = true
 			}
 		case *ssa.Lookup:
 			if u.X == loaded {
-				out = append(out, Access{fn, u, "mapread", base, fa})
+				out = append(out, Access{Fn: fn, Instr: u, Kind: "mapread", Base: base, FA: fa})
 				any = true
 			}
 		case *ssa.Range:
-			out = append(out, Access{fn, u, "range", base, fa})
+			out = append(out, Access{Fn: fn, Instr: u, Kind: "range", Base: base, FA: fa})
 			any = true
 		case ssa.CallInstruction:
 			c := u.Common()
 			if b, ok := c.Value.(*ssa.Builtin); ok && b.Name() == "delete" && len(c.Args) > 0 && c.Args[0] == loaded {
-				out = append(out, Access{fn, u, "mapdelete", base, fa})
+				out = append(out, Access{Fn: fn, Instr: u, Kind: "mapdelete", Base: base, FA: fa})
 				any = true
+			} else if g := c.StaticCallee(); g != nil && !c.IsInvoke() && depth < 2 && w.InRepo(g) && len(g.Blocks) > 0 && isMapType(loaded.Type()) {
+				// a repository function over the map (a method of the map's named type, a helper): what it does with
+				// its parameter is done to the field
+				for i, a := range c.Args {
+					if a == loaded && i < len(g.Params) {
+						var at ssa.Instruction = u
+						if sub := viaCall(w.classifyValueUsesD(g, g.Params[i], at, base, fa, depth+1), u); len(sub) > 0 {
+							// drop the callee's own "plain read" record: the read is the one reported below
+							for _, sa := range sub {
+								if sa.Instr != at {
+									out = append(out, sa)
+								}
+							}
+							any = true
+						}
+					}
+				}
 			} else if (c.IsInvoke() && c.Value == loaded) || (!c.IsInvoke() && len(c.Args) > 0 && c.Args[0] == loaded && c.StaticCallee() != nil && c.StaticCallee().Signature.Recv() != nil) {
-				out = append(out, Access{fn, u, "call", base, fa})
+				out = append(out, Access{Fn: fn, Instr: u, Kind: "call", Base: base, FA: fa})
 				any = true
 			}
 		}
@@ -145,7 +203,7 @@ func (w *World) classifyValueUses(fn *ssa.Function, loaded ssa.Value, loadInstr 
 		return nil
 	}
 	// also report the plain read itself
-	out = append(out, Access{fn, loadInstr, "read", base, fa})
+	out = append(out, Access{Fn: fn, Instr: loadInstr, Kind: "read", Base: base, FA: fa})
 	return out
 }
 
@@ -157,4 +215,130 @@ func usesValue(ins ssa.Instruction, v ssa.Value) bool {
 		}
 	}
 	return false
+}
+
+func isMapType(t types.Type) bool {
+	_, ok := t.Underlying().(*types.Map)
+	return ok
+}
+
+// Home: the function that selected the field for this access (for an access made by a function the field was
+// handed to, the function holding the call that hands it over).
+func (a Access) Home() *ssa.Function {
+	if a.Via != nil {
+		return a.Via.Parent()
+	}
+	return a.Fn
+}
+
+// WithAccess runs f under the facts of root's frame in the context in which the access is made: when the access is
+// made by a function the field was handed to, the call that leads to it is selected, so the function's parameters
+// resolve (and print) as the arguments of that call and the facts inside it are those of that call.
+func (w *World) WithAccess(root *ssa.Function, a Access, f func(facts *Facts)) {
+	if a.Site == nil || !w.inTree(root, a.Site.Parent()) {
+		f(w.Facts(root))
+		return
+	}
+	old := w.focus
+	defer w.restoreFocus(old)
+	w.Focus(root)
+	w.Pin(root, a.Fn, a.Site, f)
+}
+
+// mapOp is one operation on a map value, made directly or by a repository function the map was handed to (a
+// method of the map's named type, a helper). Key and Found are values of the frame of At.
+type mapOp struct {
+	Kind  string          // "update", "lookup", "delete", "range", "other"
+	Key   ssa.Value       // the key operand
+	Found ssa.Value       // lookup: a boolean that is true exactly when the key is present (nil: only the element is read)
+	At    ssa.Instruction // the operation itself, or the call that hands the map over
+}
+
+// mapOpsOn enumerates the operations on the map value m.
+func (w *World) mapOpsOn(m ssa.Value) []mapOp {
+	return w.mapOpsOnD(m, 0)
+}
+
+func (w *World) mapOpsOnD(m ssa.Value, depth int) []mapOp {
+	var out []mapOp
+	refs := m.Referrers()
+	if refs == nil {
+		return nil
+	}
+	for _, r := range *refs {
+		switch u := r.(type) {
+		case *ssa.DebugRef:
+		case *ssa.ChangeType:
+			out = append(out, w.mapOpsOnD(u, depth)...)
+		case *ssa.MapUpdate:
+			if u.Map == m {
+				out = append(out, mapOp{Kind: "update", Key: u.Key, At: u})
+			} else {
+				out = append(out, mapOp{Kind: "other", At: u})
+			}
+		case *ssa.Lookup:
+			op := mapOp{Kind: "lookup", Key: u.Index, At: u}
+			if u.CommaOk {
+				for _, er := range *u.Referrers() {
+					if ex, ok := er.(*ssa.Extract); ok && ex.Index == 1 {
+						op.Found = ex
+					}
+				}
+			}
+			out = append(out, op)
+		case *ssa.Range:
+			out = append(out, mapOp{Kind: "range", At: u})
+		case ssa.CallInstruction:
+			c := u.Common()
+			if b, ok := c.Value.(*ssa.Builtin); ok {
+				switch {
+				case b.Name() == "delete" && len(c.Args) == 2 && c.Args[0] == m:
+					out = append(out, mapOp{Kind: "delete", Key: c.Args[1], At: u})
+				case b.Name() == "len":
+				default:
+					out = append(out, mapOp{Kind: "other", At: u})
+				}
+				continue
+			}
+			g := c.StaticCallee()
+			if g == nil || c.IsInvoke() || depth >= 2 || !w.InRepo(g) || len(g.Blocks) == 0 {
+				out = append(out, mapOp{Kind: "other", At: u})
+				continue
+			}
+			for i, a := range c.Args {
+				if a != m || i >= len(g.Params) {
+					continue
+				}
+				for _, in := range w.mapOpsOnD(g.Params[i], depth+1) {
+					op := mapOp{Kind: in.Kind, At: u}
+					if in.Key != nil {
+						kp, isParam := throughCell(strip(in.Key)).(*ssa.Parameter)
+						if !isParam || kp.Parent() != g || paramIndex(kp) >= len(c.Args) {
+							op.Kind = "other"
+						} else {
+							op.Key = c.Args[paramIndex(kp)]
+						}
+					}
+					if in.Found != nil && op.Kind == "lookup" {
+						// the helper hands the found flag back as its (only) result
+						if cv, isVal := u.(*ssa.Call); isVal && g.Signature.Results().Len() == 1 && isBoolType(g.Signature.Results().At(0).Type()) {
+							same := true
+							for _, ret := range liveReturns(g) {
+								if throughCell(strip(ret.Results[0])) != in.Found {
+									same = false
+								}
+							}
+							if same {
+								op.Found = cv
+							}
+						}
+					}
+					out = append(out, op)
+				}
+			}
+		default:
+			out = append(out, mapOp{Kind: "other", At: r})
+		}
+	}
+	return out
 }
